@@ -60,6 +60,7 @@ class Ctx:
         self.axiom_tags = []  # names of library contracts / axioms used on this path
         self.inst_axioms = []  # (arity, make(*terms)) quantified facts the engine may instantiate at the goal's Skolem terms
         self.inst_terms = []  # unary term generators t -> f(t) used to build one more level of instantiation terms
+        self.inst_terms2 = []  # binary term generators (t1, t2) -> f(t1, t2)
 
     # -- naming -------------------------------------------------------------------------------
     def name(self, base):
@@ -103,6 +104,7 @@ class Ctx:
         meta = dict(meta or {})
         meta['inst_axioms'] = list(self.inst_axioms)
         meta['inst_terms'] = list(self.inst_terms)
+        meta['inst_terms2'] = list(self.inst_terms2)
         self.obls.append(
             Obligation(name, kind, list(self.hyps), goal, line=line, func=self.func,
                        path=''.join('T' if d else 'F' for d in self.taken), meta=meta)
@@ -250,10 +252,18 @@ def goal_directed_instances(ob, sk_consts, limit=400):
             terms.append(t)
             if getattr(g, 'mirror', False):
                 mirror.append(t)
-    out = []
     import itertools
+    pair_terms = []
+    for g in (ob.meta.get('inst_terms2') or []):
+        for c1, c2 in itertools.product(ints, repeat=2):
+            try:
+                pair_terms.append(g(c1, c2))
+            except Exception:
+                continue
+    terms.extend(pair_terms)
+    out = []
     for arity, make in axioms:
-        pool = terms if arity == 1 else mirror
+        pool = terms if arity == 1 else (mirror + pair_terms)
         for tup in itertools.product(pool, repeat=arity):
             try:
                 out.append(make(*tup))
